@@ -3,6 +3,7 @@ package world
 import (
 	"os"
 	"runtime"
+	"sync/atomic"
 
 	"verif/internal/scen"
 )
@@ -35,23 +36,22 @@ type sched struct {
 
 	// The fields below are touched by every task; in the race world only from
 	// //go:norace functions and only as fixed-size arrays.
-	cur         int
-	turn        int
-	alive       [maxTasks]bool
-	nAlive      int
-	waiting     [maxTasks]uintptr // R5: the lock a task is blocked on (0 = runnable)
-	lockWaits   int
-	allWaitSaid bool
-	hung        [maxTasks]bool // the task sits in a Write that never returns ("hang" fault)
-	nHung       int
-	yields      int
-	maxYields   int
-	switches    int
-	inLogSw     int
-	stay        int
-	mask        int
-	budget      string
-	finished    bool
+	cur       int
+	turn      int
+	alive     [maxTasks]bool
+	nAlive    int
+	waiting   [maxTasks]uintptr // R5: the lock a task is blocked on (0 = runnable)
+	lockWaits int
+	hung      [maxTasks]bool // the task sits in a Write that never returns ("hang" fault)
+	nHung     int
+	yields    int
+	maxYields int
+	switches  int
+	inLogSw   int
+	stay      int
+	mask      int
+	budget    string
+	finished  bool
 
 	// PCT-like mode: preempt exactly at these yield counts (ascending), nowhere else
 	pct     int
@@ -392,7 +392,6 @@ func (s *sched) blocked(key uintptr) bool {
 			// a channel, condition variable or wait group (rule R7): somebody outside the scheduler's view (a timer, a
 			// goroutine of the library's own) may still wake this task, so it blocks for real; if nobody does, the Go
 			// runtime reports the deadlock and the marker says that every task was accounted for
-			s.allWait()
 			return false
 		}
 		// every live task waits for a lock: a deadlock of the library under this schedule
@@ -437,16 +436,6 @@ func softKey(key uintptr) bool { return key&1 == 1 }
 
 // selectKey is what a task in a polling select waits for: any channel operation wakes it.
 const selectKey = ^uintptr(0)
-
-// allWait notes on stderr that the last runnable task is about to block for real while every other live task waits.
-//
-//go:norace
-func (s *sched) allWait() {
-	if !s.allWaitSaid {
-		s.allWaitSaid = true
-		os.Stderr.WriteString("verif: ALL-TASKS-WAIT: the last runnable task blocks on a channel, condition variable or wait group while every other live task waits\n")
-	}
-}
 
 // wakeSoft lets one task that waits for a channel (not a lock) run again when nobody else can: it will try once
 // more and then block for real. It reports whether there was one.
@@ -520,10 +509,22 @@ func (w *W) yield(site int) {
 type lockHook struct{ w *W }
 
 func (h lockHook) Blocked(key uintptr) bool {
-	if s := h.w.sch; s != nil {
-		return s.blocked(key)
+	if s := h.w.sch; s != nil && s.blocked(key) {
+		return true
 	}
+	// the caller blocks for real: it is the only task (set-up, tail, a one-task episode) or every other live task
+	// waits. Either way every task is accounted for, and if nothing outside the scheduler's view wakes it, the
+	// deadlock the Go runtime reports next is the library's own
+	allWaitMark()
 	return false
+}
+
+var allWaitSaid atomic.Bool
+
+func allWaitMark() {
+	if allWaitSaid.CompareAndSwap(false, true) {
+		os.Stderr.WriteString("verif: ALL-TASKS-WAIT: a task blocks on a lock, channel, condition variable or wait group while no other task can run\n")
+	}
 }
 
 func (h lockHook) Released(key uintptr) {
